@@ -1,5 +1,6 @@
 (* Properties/C19.v — property theorems only; every proof is [exact <lemma>] (lemmas in Proofs/). *)
 From PV Require Import Common.Util Gen.ZmqConsts Zmq.Framing Zmq.FramingCheck Proofs.ZmqFraming.
+From PV Require Import Zmq.Shell Zmq.ShellCheck Proofs.ZmqShell.
 
 (* C19, first sentence: any list of byte frames of any lengths (below 2^64) written by send_multipart is read
    back identically by recv_multipart, however the stream is fragmented ([s] ranges over all chunkings), and
@@ -21,3 +22,24 @@ Print Assumptions C19_single_roundtrip.
 Theorem C19_model_implies_spec : forall c, fcase_wf c -> fcase_model_ok c = true -> fcase_spec_ok c = true.
 Proof. exact fcase_model_implies_spec. Qed.
 Print Assumptions C19_model_implies_spec.
+
+(* C19, second sentence (a): for every MAC function, kernel state and continuation, a request whose signature
+   frame differs from the MAC of its message frames is never executed and never answered - nor is anything
+   that follows it on the connection. *)
+Theorem C19_forged_request_inert : forall (hmac : list bytes -> bytes) st r rs,
+  forged hmac r ->
+  let '(st', groups) := run hmac st (r :: rs) in
+  Forall (fun g => g = []) groups /\ k_executed st' = k_executed st /\ k_count st' = k_count st.
+Proof. exact forged_request_inert. Qed.
+Print Assumptions C19_forged_request_inert.
+
+(* C19, second sentence (b) and third sentence, for every request sequence from every state: each authentic
+   request of a replying type gets exactly one shell reply of the matching type, addressed to the requester's
+   identities, signed, with the request header as parent; broadcasts are bracketed by busy ... idle; execute replies
+   carry 1 + the number of earlier history-storing executions; exactly the authentic, parsing cells are executed.
+   ([spec_groups]/[spec_executed] are the checkers the correspondence applies to what the real kernel wrote.) *)
+Theorem C19_replies_correlated : forall (hmac : list bytes -> bytes) rs st,
+  spec_groups hmac (k_alive st) (k_count st) rs (snd (run hmac st rs)) = true /\
+  k_executed (fst (run hmac st rs)) = (k_executed st + spec_executed hmac (k_alive st) rs)%N.
+Proof. exact run_satisfies_spec. Qed.
+Print Assumptions C19_replies_correlated.
